@@ -310,6 +310,7 @@ pub fn run(ctx: &Ctx) {
     count_layer(ctx);
     nil_layer(ctx);
     value_layer(ctx);
+    tree_layer(ctx);
 }
 
 /// Size thresholds of the replay queues: long lists. The decisive limits only.
@@ -570,6 +571,78 @@ fn value_layer(ctx: &Ctx) {
     });
 }
 
+/// Same-named elements nested inside a skipped element, with different attributes and different
+/// presentations (`<node/>`, `<node></node>`, with children).
+#[derive(Serialize, Deserialize, PartialEq, Debug, Clone)]
+pub struct Node {
+    #[serde(rename = "@id")]
+    pub id: u8,
+    #[serde(default)]
+    pub node: Vec<Node>,
+}
+#[derive(Serialize, Deserialize, PartialEq, Debug, Clone)]
+pub struct Tree {
+    #[serde(default)]
+    pub node: Vec<Node>,
+    #[serde(default)]
+    pub flag: Vec<()>,
+    pub s: String,
+}
+
+fn node_xml(n: &Node) -> String {
+    if n.node.is_empty() {
+        if n.id % 2 == 0 { format!("<node id=\"{}\"/>", n.id) } else { format!("<node id=\"{}\"></node>", n.id) }
+    } else {
+        format!("<node id=\"{}\">{}</node>", n.id, n.node.iter().map(node_xml).collect::<String>())
+    }
+}
+fn node_events(n: &Node) -> usize {
+    2 + n.node.iter().map(node_events).sum::<usize>()
+}
+
+fn tree_layer(ctx: &Ctx) {
+    let leaf_n = |id: u8| Node { id, node: vec![] };
+    let shapes: Vec<Vec<Node>> = vec![
+        vec![Node { id: 1, node: vec![leaf_n(11)] }],
+        vec![Node { id: 1, node: vec![leaf_n(11), leaf_n(12)] }, leaf_n(2)],
+        vec![leaf_n(2), Node { id: 3, node: vec![Node { id: 31, node: vec![leaf_n(32)] }] }],
+        vec![Node { id: 1, node: vec![leaf_n(1)] }, Node { id: 1, node: vec![leaf_n(1)] }],
+    ];
+    ctx.layer("same_name_nesting_with_attributes", 4, shapes.len() as u64 * 3, json!({"type": "Tree {node: Vec<Node>, flag: Vec<()>, s}, Node {@id, node: Vec<Node>}", "shapes": shapes.len(), "flags": "0..=2", "limits": ["none", 1000]}), |i, acc| {
+        let nodes = &shapes[(i / 3) as usize];
+        let nf = (i % 3) as usize;
+        let want = Tree { node: nodes.clone(), flag: vec![(); nf], s: "v".into() };
+        let gn: Vec<Child> = nodes.iter().map(|n| Child { name: 'n', xml: node_xml(n), events: node_events(n), inner_peak: 0 }).collect();
+        let gf: Vec<Child> = (0..nf).map(|_| Child { name: 'f', xml: "<flag/>".into(), events: 2, inner_peak: 0 }).collect();
+        let gs = vec![Child { name: 's', xml: "<s>v</s>".into(), events: 3, inner_peak: 0 }];
+        for kids in interleavings(&[gn.clone(), gf.clone(), gs.clone()]) {
+            let xml = format!("<Tree>{}</Tree>", kids.iter().map(|c| c.xml.as_str()).collect::<String>());
+            acc.traces += 1;
+            for limit in [None, NonZeroUsize::new(1000)] {
+                for via_reader in [false, true] {
+                    acc.evaluations += 1;
+                    acc.transitions += 1;
+                    let got = guarded(|| {
+                        if via_reader {
+                            let mut de = Deserializer::from_reader(xml.as_bytes());
+                            de.event_buffer_size(limit);
+                            Tree::deserialize(&mut de).map_err(|e| format!("{:?}", e))
+                        } else {
+                            let mut de = Deserializer::from_str(&xml);
+                            de.event_buffer_size(limit);
+                            Tree::deserialize(&mut de).map_err(|e| format!("{:?}", e))
+                        }
+                    });
+                    match got {
+                        Ok(Ok(v)) if v == want => acc.nt_count += 1,
+                        other => acc.violation((4, i), format!("document {:?} ({}, limit {:?}) deserializes as {:?}, expected {:?}", xml, if via_reader { "from_reader" } else { "from_str" }, limit, other, want), json!({"tree_doc": xml})),
+                    }
+                }
+            }
+        }
+    });
+}
+
 fn count_layer(ctx: &Ctx) {
     let t = ctx.tier;
     let ns: Vec<u32> = crate::inputs::size_list(t.pick(24, 80), t.pick(12, 16));
@@ -595,6 +668,11 @@ fn count_layer(ctx: &Ctx) {
 }
 
 pub fn replay(case: &Value) -> Result<(), String> {
+    if let Some(doc) = case.get("tree_doc").and_then(|d| d.as_str()) {
+        let r = quick_xml::de::from_str::<Tree>(doc);
+        println!("document {:?}\nfrom_str => {:?}", doc, r);
+        return r.map(|_| ()).map_err(|e| format!("{:?}", e));
+    }
     if let Some(doc) = case.get("value_doc").and_then(|d| d.as_str()) {
         let r = quick_xml::de::from_str::<WithValue>(doc);
         println!("document {:?}\nfrom_str => {:?}", doc, r);
